@@ -106,6 +106,14 @@ class Elem:
         return 'O%d' % self.id
 
 
+class FalsyElem(Elem):
+    """an element object that is false (an empty folder, a record whose
+    length is 0): an object with attributes like any other"""
+
+    def __len__(self):
+        return 0
+
+
 class Lazy:
     def __init__(self, items):
         self._items = items
@@ -117,7 +125,7 @@ class Lazy:
         return len(self._items)
 
 
-def elements(kind, xs):
+def elements(kind, xs, Elem=Elem):
     out = []
     for i, x in enumerate(xs):
         if kind == 'obj':
@@ -182,6 +190,15 @@ def cases(tier):
                         for pn in (PREFIXES if 'prefix' in opts else ('p',)):
                             yield {'kind': kind, 'cont': cont, 'opts': opts,
                                    'batch': batch, 'n': n, 'pname': pn}
+    # element objects that are false themselves
+    for kind in ('obj', 'pair', 'mix', 'mixstr'):
+        for cont in ('list', 'iter'):
+            for opts in option_sets(kind):
+                for batch in range(len(BATCHES)):
+                    for n in range(1, maxn + 1):
+                        yield {'kind': kind, 'cont': cont, 'opts': opts,
+                               'batch': batch, 'n': n, 'pname': 'p',
+                               'felem': 1}
     # runs of *different false values* of x (0, None, '') next to each
     # other: first-x / last-x see every boundary
     for kind in ('obj', 'map', 'pair'):
@@ -354,7 +371,8 @@ def first_difference(got, exp, kind, opts, batch):
 def one(res, case, xs):
     kind, cont, opts, batch = (case['kind'], case['cont'], case['opts'],
                                case['batch'])
-    seq = container(cont, elements(kind, xs))
+    ecls = FalsyElem if case.get('felem') else Elem
+    seq = container(cont, elements(kind, xs, ecls))
     try:
         got = template(kind, opts, batch, case.get('pname', 'p'))(seq=seq)
     except Exception as e:
@@ -376,7 +394,7 @@ def one(res, case, xs):
                         {'xs': xs, 'container': cont, 'got': repr(again),
                          'expected': exp}, dict(case, xs=list(xs)))
     if got == exp and case.get('pname', 'p') == 'p':
-        seq2 = container(cont, elements(kind, xs))
+        seq2 = container(cont, elements(kind, xs, ecls))
         try:
             ab = template(kind, opts, batch, 'p', True)(seq=seq2, boom=_boom)
         except Exception as e:
